@@ -659,6 +659,15 @@ func (r *rewriter) stmt(s ast.Stmt) ast.Stmt {
 	return s
 }
 
+// typeOf looks an expression up in the type information, if there is any for this package.
+func typeOf(info *types.Info, e ast.Expr) (types.TypeAndValue, bool) {
+	if info == nil || info.Types == nil {
+		return types.TypeAndValue{}, false
+	}
+	tv, ok := info.Types[e]
+	return tv, ok
+}
+
 func (r *rewriter) loopTick(b *ast.BlockStmt) {
 	if !r.opt.LoopTicks || b == nil {
 		return
@@ -693,6 +702,12 @@ func (r *rewriter) goStmt(g *ast.GoStmt) ast.Stmt {
 	for i, a := range c.Args {
 		if bl, ok := a.(*ast.BasicLit); ok {
 			args[i] = bl
+			continue
+		}
+		if tv, ok := typeOf(r.pkg.info, a); ok && (tv.Value != nil || tv.IsNil()) {
+			// a constant or the untyped nil: no temporary (`x := nil` does not compile, and a temporary would
+			// give an untyped constant its default type instead of the parameter's)
+			args[i] = a
 			continue
 		}
 		id := r.tmp("a")
